@@ -1,6 +1,7 @@
 """C13 — a CA sends application data only from an address it holds."""
 import common as C
 import sprop, gen_ca
+import refpeer as R
 
 FILES = ['theories/Base.v', 'theories/gen/Codec.v', 'theories/gen/Tp21Gen.v', 'theories/gen/CaGen.v', 'theories/CodecGlue.v',
          'theories/Model21.v', 'theories/Replay21.v', 'proofs/CodecProofs.v', 'proofs/Flat.v', 'proofs/Tp21Resp.v',
@@ -67,9 +68,34 @@ def oracle_fd_two(sc, res):
     return v
 
 
+def gen_two_contests(rng):
+    """two contests for the address of the CA under test, one after the other, from DIFFERENT nodes: first a claim with a higher
+    NAME (fended off), later a real CA with a lower NAME — the second contest is decided by the second contender's NAME, and
+    what the CA sends afterwards comes from the address it then holds (or is refused)"""
+    aac = rng.random() < 0.5
+    pref = rng.choice(gen_ca.VETO[:100])
+    nameX = gen_ca.mk_name(rng, aac) | (1 << 40)
+    weak = ((nameX + (1 << 41)) & ~(1 << 48)) & ((1 << 64) - 1)
+    strong = (nameX - (1 << 40) + rng.randint(0, 1000)) & ~(1 << 48)
+    bypass = rng.random() < 0.3
+    stacks = [dict(dll='j1939-21', max_cmdt=3, subs=[], cas=[dict(name=nameX, addr=pref, bypass=bypass, subs=[1], req=[2])]),
+              dict(dll='j1939-21', max_cmdt=3, subs=[dict(cid=20, filt=None)], cas=[dict(name=strong, addr=pref, bypass=False, subs=[21], req=[22])])]
+    script = [dict(t=1000, s=0, op='ca_start', ca=0, delay=0), dict(t=rng.choice([1_200_000, 1_500_000]), s=1, op='ca_start', ca=0, delay=0)]
+    t_weak = rng.choice([100_000, 600_000])            # inside the veto wait of the CA under test, or when it is operational
+    inject = [dict(t=t_weak, to=0, id=R.ref_can_id(6, 0xEEFF, pref), data=list(weak.to_bytes(8, 'little')), via='listener')]
+    for t in (400_000, 900_000, 2_200_000, 2_700_000, 3_400_000):
+        script.append(dict(t=t + rng.randint(0, 50), s=0, op='ca_send_message', ca=0, a=[6, 0xFECA, dict(seed=rng.getrandbits(20), len=8)]))
+        if rng.random() < 0.5:
+            script.append(dict(t=t + 100, s=0, op='ca_request', ca=0, a=[0, 0xFECA, 255]))
+    script.sort(key=lambda e: e['t'])
+    return dict(stacks=stacks, lat=[rng.choice([0, 1, 5000])], jit=[1], script=script, inject=inject, horizon=5_000_000)
+
+
 def gen(rng, k):
     if k % 12 == 7:
         return gen_fd_two(rng)
+    if k % 12 == 3:
+        return gen_two_contests(rng)
     if k % 6 == 5:
         return gen_move(rng)
     aac = rng.random() < 0.5
